@@ -91,7 +91,9 @@ func (s *Solver) Check() string {
 				res = l
 			}
 		case strings.HasPrefix(l, "(error"):
-			res = "error:" + l
+			if !strings.HasPrefix(res, "error:") {
+				res = "error:" + l
+			}
 		case l == "timeout":
 			res = "unknown"
 		}
